@@ -43,6 +43,9 @@ MSG = {"Point lies outside of the specified simplex.": "OutsideSimplex",
 # arithmetic": the case's geometric verdicts are discarded (and counted)
 GEOMETRIC = ("volumes_sum_to_hull", "delaunay", "facet_in_at_most_two", "every_point_a_vertex", "internal_error",
              "degenerate_simplex")
+# after a gap insertion only these are discarded: the volume clause holds "up to the sliver tolerance", Delaunay is
+# promised for general position; facet multiplicity, orphaned vertices and internal errors are always reported
+TOLERANCE_QUALIFIED = ("volumes_sum_to_hull", "delaunay")
 # after one of these the object is no triangulation any more: the case ends there
 BROKEN_OBJECT = ("reject_unchanged", "state_unreadable", "index_consistent", "every_point_a_vertex", "facet_in_at_most_two",
                  "degenerate_simplex", "internal_error", "report_exact", "vertices_appended_once")
@@ -241,7 +244,7 @@ class Oracle:
         if clause in GEOMETRIC:
             # "every point is a vertex of some simplex" is not qualified by the sliver tolerance: after a gap
             # insertion it is reported (as F33 when its trigger is met, see _after_step), never discarded
-            if self.fragile or (self.near_degenerate and clause != "every_point_a_vertex"):
+            if self.fragile or (self.near_degenerate and clause in TOLERANCE_QUALIFIED):
                 # decisions with a tiny exact margin / a point placed 2e-8 outside a facet: the regime of the
                 # documented 1e-8 tolerances, never reported (counted)
                 self.would_fail_fragile += 1
